@@ -12,6 +12,7 @@ import OxiddModel.Circuit.Driver
 import OxiddModel.Ffi.Driver
 import OxiddModel.Locks.Driver
 import OxiddModel.Reorder.DriverStore
+import OxiddModel.Reorder.DriverStoreC
 
 open OxiddModel
 
@@ -32,7 +33,8 @@ def protos : List (String × Proto) := [
   ("capi", OxiddModel.Ffi.proto),
   ("locks", OxiddModel.Locks.proto),
   ("capi-before-fix", OxiddModel.Ffi.protoBeforeFix),
-  ("reorder-store", OxiddModel.Reorder.SwapStore.proto)
+  ("reorder-store", OxiddModel.Reorder.SwapStore.proto),
+  ("reorder-store-bcdd", OxiddModel.Reorder.SwapStoreC.proto)
 ]
 
 def main (args : List String) : IO UInt32 := do
